@@ -1,14 +1,17 @@
 (* Proofs for property C08 about the model in BufferModel.v.
 
    inv b        the representation invariant of one Buffer variable (own b = Some a: the window
-                is inside the allocation of capf+1 cells and the cell at [stop] holds 0; own b =
-                None: capf = 0 and the window is inside the attached range or is the empty window
-                on a _capacity field)
+                is inside the allocation of capf+1 <= max_bytes cells and the cell at [stop] holds
+                0; own b = None: capf = 0 and the window is inside the attached range, itself
+                shorter than max_bytes, or is the empty window on a _capacity field)
    ref b q      the bytes the model exposes agree with the reference queue wherever the queue
                 is specified
-   Every method is shown to succeed from [inv] (no Err: no access outside the own allocation /
-   the attached range, no write into foreign memory), to re-establish [inv] and to expose
-   exactly the expected bytes.  The world-level statements follow by case analysis on the op. *)
+   okun need r P  "the [need] data bytes fit into one object -> r = Ok b' with P b'; they do not ->
+                r = Err AllocFail"
+   Every method is shown, from [inv], either to succeed (no access outside the own allocation /
+   the attached range, no write into foreign memory), to re-establish [inv] and to expose exactly
+   the expected bytes - or, exactly when the bytes it needs do not fit, to fail in new[].  The
+   world-level statements follow by case analysis on the op. *)
 From Coq Require Import ZArith NArith List Bool Arith Lia.
 From Common Require Import ListAux.
 From Buffer Require Import BufferSpec BufferModel BufferLists.
